@@ -409,8 +409,19 @@ class NameConverter(ast.NodeTransformer):
         ):
             return self.generic_visit(node)
 
-        if any(isinstance(arg, ast.Starred) for arg in node.args):
-            is_recurse = node.func.id in self.recurse_syms
+        is_recurse = node.func.id in self.recurse_syms
+
+        def _needs_binding(kw):
+            # **kwargs, or a positional parameter given by keyword: only the
+            # entry point of the dispatcher knows how to bind these
+            return kw.arg is None or any(
+                isinstance(pos, int)
+                for pos in self.analysis.name_to_positions.get(kw.arg, ())
+            )
+
+        if any(isinstance(arg, ast.Starred) for arg in node.args) or (
+            is_recurse and any(_needs_binding(kw) for kw in node.keywords)
+        ):
             new_node = self.generic_visit(node)
             if self.analysis.is_method and is_recurse:
                 # The dispatch function is not bound: pass self along
@@ -419,6 +430,25 @@ class NameConverter(ast.NodeTransformer):
 
         cn = node.func.id == self.call_next_sym
         tmp = f"__TMP{next(self.count)}_"
+
+        if cn:
+            # call_next(x=e), where x names the next positional parameter, is
+            # call_next(e): the table is keyed by position
+            args = list(node.args)
+            keywords = []
+            for kw in node.keywords:
+                positions = [
+                    pos
+                    for pos in self.analysis.name_to_positions.get(kw.arg, ())
+                    if isinstance(pos, int)
+                ]
+                if positions == [len(args)] and not keywords:
+                    args.append(kw.value)
+                else:
+                    keywords.append(kw)
+            node = ast.copy_location(
+                ast.Call(func=node.func, args=args, keywords=keywords), node
+            )
 
         def _make_lookup_call(key, arg):
             name = (
